@@ -142,7 +142,7 @@ CHECKS["C14"] = dict(
 CHECKS["C13"] = dict(
     category="proof",
     text="ScenarioID.__init__/__str__/from_benchmark_id/__eq__ and Solution.benchmark_id / CommonRoadSolutionReader._parse_benchmark_id / _parse_vehicle_id are interpreted from the real source on ids whose map / configuration / prediction numbers are symbolic integers >= 1 and whose country (any key of the shipped ISO table, or ZAM) and map name (any string of [a-zA-Z0-9]+) are opaque atoms; the printed id is a token string. Conformance to the CommonRoad id grammar (stated in the contract, not taken from the code) and the capture groups the REAL compiled pattern yields for EVERY string of that form are decided by automata (language inclusion + group unambiguity on the product automaton; no length bound). Exhaustive over cooperative flag, behaviour S/T/P/I, map / configuration / prediction structure incl. constructor defaults, 1-3 prediction ids as int or list, all supported versions, all (vehicle model, type) pairs, all cost functions, 1-3 planning-problem solutions.",
-    note="str(int) is the canonical decimal text and int() inverts it (assumed); string concatenation / join / split / replace / re.sub on token strings modelled at character level and refused where an atom could contain the character; vehicle and cost ids enter the framing contract as atoms over the finite id sets proved by the per-pair contracts (modular); at most 3 prediction ids and 3 planning-problem solutions (structure bound)",
+    note="str(int) is the canonical decimal text and int() inverts it (assumed); string concatenation / join / split / replace / re.sub on token strings modelled at character level and refused where an atom could contain the character; vehicle and cost ids enter the framing contract as atoms over the finite id sets proved by the per-pair contracts (modular); at most 3 prediction ids and 3 planning-problem solutions in the quick tier, 8 and 6 in the thorough tier (structure bound)",
     technique="deductive: AST symbolic execution of the real print/parse code on token strings + regular-language decision (NFA product, inclusion and group unambiguity) against the real compiled pattern; finite enumerations by exhaustion; z3 for the integer equalities",
     design_ref="5/C13",
 )
